@@ -15,6 +15,9 @@ for p in sorted(glob.glob(f"{BASE}/sensitivity/*.diff")):
     name = os.path.basename(p)[:-5]
     targets.append((name, name.split("-")[0], p))
 only = sys.argv[1:]
+if only and os.path.exists(f"{BASE}/sensitivity_report.json"):
+    # partial re-run: keep the other entries
+    out.update(json.load(open(f"{BASE}/sensitivity_report.json")))
 from concurrent.futures import ThreadPoolExecutor
 import threading
 lock = threading.Lock()
@@ -53,6 +56,6 @@ def one(t):
 todo = [t for t in targets if not only or any(t[0].startswith(o) for o in only)]
 with ThreadPoolExecutor(JOBS) as ex:
     list(ex.map(one, todo))
-miss = [k for k, v in out.items() if not v.get("detected")]
-thin = [k for k, v in out.items() if v.get("detected") and (v.get("violating_runs") or 0) < 5]
+miss = sorted(k for k, v in out.items() if not v.get("detected"))
+thin = sorted(k for k, v in out.items() if v.get("detected") and (v.get("violating_runs") or 0) < 5)
 print("targets:", len(out), "missed:", miss, "thin (<5 runs):", thin)
